@@ -151,7 +151,9 @@ class TriggerContext:
         :return: the result of the expression, or the exception that was raised.
         """
         try:
-            return eval(expression, None, self.__frame.f_locals)
+            # names are resolved as they are at the paused line: the frame's locals, then the globals of the
+            # frame's own module (not those of this module), then the builtins
+            return eval(expression, getattr(self.__frame, 'f_globals', None), self.__frame.f_locals)
         except BaseException as e:
             return e
 
